@@ -1344,6 +1344,9 @@ class Interp:
             s.env.pop(key, None)
             if res is not None:
                 r = res[0]
+                if isinstance(r, (GenObj, LazyGen)):
+                    items = self._drain(r, s)          # __iter__ written as a generator
+                    return items if items is not None else TOP
                 if isinstance(r, Iter):
                     return list(r.items[r.pos:])
                 if isinstance(r, (list, tuple)):
@@ -2207,6 +2210,8 @@ class Interp:
         if isinstance(base, (list, dict)) and attr in ('append', 'extend', 'insert', 'pop', 'copy', 'keys', 'values', 'items', 'get', 'update', 'clear', 'index', 'remove', 'reverse', 'setdefault') \
            and hasattr(type(base), attr):
             return ('boundmethod', base, attr)
+        if isinstance(base, (list, dict, tuple)) and not isinstance(base, ListObj) and attr in ('__getitem__', '__contains__', '__len__', 'count', 'index') and hasattr(type(base), attr):
+            return ('boundmethod', base, attr)         # table.__getitem__ handed to map() and the like
         if isinstance(base, set) and attr in ('add', 'discard', 'remove', 'update', 'clear', 'copy', 'pop', 'union', 'intersection', 'difference', 'issubset', 'issuperset'):
             return ('boundmethod', base, attr)
         if self.precise_exc and self.heap and (base is None or (isinstance(base, (list, dict, tuple, int, float, bool, str)) and not isinstance(base, (ListObj, TextObj, TokStr, M._StringLetters)))) \
@@ -2662,6 +2667,11 @@ class Interp:
             inst_attr = isinstance(holder, Obj) and holder.attrs.get(n.func.attr) is fval     # self.keys = top.keys ; self.keys()
         if isinstance(fval, Sym) and fval.label.startswith('boundmethod:') and (not isinstance(n.func, ast.Attribute) or inst_attr):
             r = self.apply_value(fval, list(args), kwargs, s, n.lineno)
+            if r is not None:
+                return r
+        if isinstance(fval, Sym) and fval.label.startswith('func:') and isinstance(fval.attrs.get('node'), ast.FunctionDef) \
+           and not isinstance(n.func, ast.Name) and not kwargs and self.inline_depth > 0:
+            r = self.call_value(fval, list(args), s, n.lineno)        # a lambda / nested function taken from a table
             if r is not None:
                 return r
         if isinstance(fval, Obj) and isinstance(fval.cls, M.ClassInfo) and self.model is not None and self.inline_depth > 0 \
@@ -4018,6 +4028,17 @@ class Interp:
                 for item in seq:
                     seen += 1
                     r = self.apply_value(args[0], [item], {}, s, n.lineno) if args[0] is not None else (item,)
+                    if r is None and isinstance(n.args[0], (ast.Name, ast.Attribute)) and (args[0] is TOP or isinstance(args[0], Sym)):
+                        # the function is known only by the expression that names it (an object of the scenario): that call, written out
+                        nm_ = self._with_temps({'__item': item}, s)
+                        call_ = ast.Call(func=n.args[0], args=[ast.Name(id=nm_['__item'], ctx=ast.Load())], keywords=[])
+                        ast.copy_location(call_, n)
+                        ast.copy_location(call_.args[0], n)
+                        try:
+                            v_ = self.ev(call_, s)
+                        finally:
+                            s.env.pop(nm_['__item'], None)
+                        r = None if v_ is TOP else (v_,)
                     if r is None:
                         ok = False
                         break
@@ -4260,6 +4281,14 @@ class Interp:
                 try:
                     return getattr(recv, meth)(*args, **kwargs)
                 except Exception:
+                    return TOP
+            return TOP
+        if isinstance(recv, (list, dict, tuple)) and meth in ('__getitem__', '__contains__', '__len__', 'count') and not kwargs:
+            if all(_plain(a) for a in args):
+                try:
+                    return getattr(recv, meth)(*args)
+                except (KeyError, IndexError, TypeError) as e:
+                    self._pending_exc = type(e).__name__
                     return TOP
             return TOP
         if isinstance(recv, tuple) and meth in ('_replace', '_asdict', 'index', 'count'):
